@@ -244,6 +244,11 @@ func (s *wsServer) serve(c net.Conn, sc wsScript) {
 			k = len(good) - 1
 		}
 		_, _ = c.Write([]byte(good[:k]))
+		// The server sends nothing more but keeps its descriptor: it only shuts its write side, so
+		// that a client which (rightly) waits for the rest of the response sees the end of the stream.
+		if tc, ok := c.(*net.TCPConn); ok {
+			_ = tc.CloseWrite()
+		}
 		s.results <- wsResult{seq: sc.seq, conn: c, fd: connFd(c)}
 	case "status":
 		_, _ = c.Write([]byte("HTTP/1.1 200 OK\r\nContent-Length: 0\r\n\r\n"))
